@@ -10,7 +10,7 @@ import z3
 
 from .types import (T, INT, BOOL, BYTES, STR, NONE, ANY, OPT, LIST, SET, MAP, TUPLE, CLS, Outside, to_sort, opt_sort,
                     tuple_sort, from_annotation, BYTES_SORT, BV8)
-from .engine import (RangeV, IterV, V, Ref, HeapObj, ExcVal, Raised, Closure, BoundMethod, BuiltinMethod, LocalClass, GhostNS,
+from .engine import (EmptyMap, EMPTY_MAP, RangeV, IterV, V, Ref, HeapObj, ExcVal, Raised, Closure, BoundMethod, BuiltinMethod, LocalClass, GhostNS,
                      Frame, State, is_concrete, bytes_term)
 from .interp import Interp, Ctl, inspect_getattr_static, _is_true, _is_false
 
@@ -50,7 +50,12 @@ class Calls(Interp):
                 (s1, c), = list(self.ev(e.args[0], st))
                 (s2, a), = list(self.ev(e.args[1], st))
                 (s3, b2), = list(self.ev(e.args[2], st))
-                la, lb = self.lift(a, st), self.lift(b2, st)
+                if isinstance(a, EmptyMap):
+                    lb = self.lift(b2, st)
+                    la = V(self.term(a, lb.ty, st), lb.ty)
+                else:
+                    la = self.lift(a, st)
+                    lb = V(self.term(b2, la.ty, st), la.ty) if isinstance(b2, EmptyMap) else self.lift(b2, st)
                 yield st, V(z3.If(self.b(self.truth(c, st)), la.t, self.term(lb, la.ty, st)), la.ty)
                 return
         for s, fv in self.ev(e.func, st):
@@ -151,7 +156,7 @@ class Calls(Interp):
         yield from self.run_body(node, func.__globals__, qn, args, kwargs, st, parent=None)
 
     def call_closure(self, clo, args, kwargs, st):
-        yield from self.run_body(clo.node, clo.globs, clo.qualname, args, kwargs, st, parent=clo.frame_index)
+        yield from self.run_body(clo.node, clo.globs, clo.qualname, args, kwargs, st, parent=None, captured=clo.frame_index)
 
     def bind_params(self, node, args, kwargs, st, qualname):
         a = node.args
@@ -182,9 +187,9 @@ class Calls(Interp):
             raise Outside("missing arguments %s for %s" % (missing, qualname))
         return vals
 
-    def run_body(self, node, globs, qualname, args, kwargs, st, parent):
+    def run_body(self, node, globs, qualname, args, kwargs, st, parent, captured=None):
         vals = self.bind_params(node, args, kwargs, st, qualname)
-        st.stack.append(Frame(vals, parent, globs, qualname))
+        st.stack.append(Frame(vals, parent, globs, qualname, captured))
         st.depth += 1
         depth = len(st.stack)
         for s, ctl in self.exec_block(node.body, st):
@@ -620,6 +625,20 @@ class Calls(Interp):
             return
         if recv is int and name == 'from_bytes' or isinstance(recv, type) and recv is int:
             pass
+        if isinstance(recv, EmptyMap):
+            if name == 'set':
+                k, v2 = args
+                kl, vl = self.lift(k, st), self.lift(v2, st)
+                typed = V(self.term(recv, MAP(kl.ty, vl.ty), st), MAP(kl.ty, vl.ty))
+                yield from self.v_map_set(typed, args, kwargs, st, e)
+                return
+            if name == 'mutate':
+                yield st, self.new_container(st, 'dict', None)
+                return
+            if name == 'get':
+                yield st, (args[1] if len(args) > 1 else None)
+                return
+            raise Outside("method %s on an empty map of unknown type" % name)
         if isinstance(recv, V) or is_concrete(recv):
             ty = self.ty_of(recv)
             m = getattr(self, 'v_%s_%s' % (ty.kind, name), None)
@@ -761,7 +780,7 @@ class Calls(Interp):
         yield st, self.new_container(st, 'dict', recv)
 
     def m_dict_finish(self, ref, h, args, kwargs, st, e):
-        yield st, h.val
+        yield st, (h.val if h.val is not None else EMPTY_MAP)
 
     def v_map_keys(self, recv, args, kwargs, st, e):
         yield st, IterV('keys', recv)
